@@ -106,7 +106,8 @@ def model_step(state, ev, role):
         if ev == "idle":
             return r(OPEN, ["DWR+"])             # H6: at least one
         if ev == "DPR-bad-cause":
-            return r(CLOSED, hard=False)
+            return r(CLOSED)                     # H3, closing half: any received DPR closes the connection (whether the
+                                                 # library answers a DPR whose cause it does not accept is not judged)
         if ev == "DWA-other-host":
             return r(CLOSING, hard=False)
         if ev == "CER":
